@@ -145,7 +145,11 @@ def analyse(ix, sid):
     cosd = [e for e in ix.evs(sid, 'cosd-begin') if begin['seq'] < e['seq'] < rex['seq']]
     t_end_expected = None
     stragglers_expected = None
-    if not cosd:
+    if getattr(ix.trace, 'rerun', False):
+        # second run of the same objects: whether the shutdown handlers are called again is
+        # not specified (a scheduler "broadcasts only once"): only the main phase is judged
+        pass
+    elif not cosd:
         bad('no-shutdown-phase', "co_shutdown() is not called before the run ends")
     else:
         sd0 = cosd[0]
